@@ -4,6 +4,7 @@
 // Built in the `asan` flavour: the sanitizers decide the memory/UB half, the oracles below the
 // behavioural half.  Violations are emitted as JSONL records with a specific key.
 #include "common.h"
+#include <thread>
 
 #include <pistache/base64.h>
 #include <pistache/cookie.h>
@@ -561,6 +562,20 @@ static void c18_built(const MimeIntent& m, const std::string& cls) {
         check_mime_against(got, m, "c18:rt:" + cls);
         std::string again = got.toString();
         if (again != text) viol("c18:rt:" + cls + ":tostring", "toString() of parsed != text it was parsed from");
+    }
+    // the built object goes on living: its string form follows what the setters do AFTER it has been asked for once.  (A PARSED object keeps the
+    // text it was parsed from as its string form whatever is set on it later - observed, and not judged: the statement says exactly that of parsed ones.)
+    if (!t.any) {
+        for (int which = 0; which < 1; which++) {
+            MimeIntent m2 = m; m2.q = (m.q < 0 ? 37 : (m.q + 41) % 101); m2.params.clear(); for (auto& pr : m.params) m2.params.push_back(pr);
+            bool addParam = (fnv(text) + (uint64_t)which) % 2 == 0; if (addParam) { bool have = false; for (auto& pr : m2.params) if (pr.first == "later") have = true; if (!have) m2.params.push_back({"later", "v" + std::to_string(fnv(text) % 97)}); }
+            std::string text2; Thrown t2 = guarded([&] { Mime::MediaType obj = which == 0 ? build_mime(m) : got; (void)obj.toString(); obj.setQuality(Mime::Q((Mime::Q::Type)m2.q)); if (addParam) obj.setParam(m2.params.back().first, m2.params.back().second); text2 = obj.toString(); });
+            if (t2.any) { viol("c18:rt:" + cls + ":later-setters:throw", "setters after a first toString() threw"); continue; }
+            Mime::MediaType back; Thrown t3 = guarded([&] { back = Mime::MediaType::fromString(text2); });
+            if (t3.any) viol("c18:rt:" + cls + ":later-setters:unparsable", "string form '" + text2 + "' after later setters is rejected");
+            else check_mime_against(back, m2, std::string("c18:rt:") + cls + ":later-setters:" + (which == 0 ? "built" : "parsed"));
+        }
+        count("mime_setters_after_tostring");
     }
     g_distinct.add("mb:" + std::to_string(m.ti) + "/" + std::to_string(m.si) + "+" + std::to_string(m.fi) + ":" + (m.q < 0 ? "n" : m.q == 0 ? "0" : m.q == 100 ? "1" : m.q % 10 == 0 ? "t" : "h") + ":" + std::to_string(m.params.size()));
     count("mime_built");
@@ -1165,8 +1180,31 @@ static void c16_lookup(Rng& r) {
     maybe_sample("lookup-message", msg.substr(0, 300));
     end_case();
 }
+// the first thing a thread does with the library: a value written by a thread that has not touched the writers before (lazily initialised
+// per-thread state starts from its defaults there) must read back like any other
+static void c16_first_on_a_fresh_thread(Rng& r) {
+    static const long long FIRST[] = {0, 0, 1, 86399, 86400, 951782400LL, 2147483647LL, 4102444800LL};
+    long long sec = r.chance(1, 2) ? r.pick(FIRST) : (long long)r.below(4102444800ull);
+    int what = r.range(0, 2);   // 0 Date header, 1 default-constructed Date header (epoch), 2 Cache-Control with a delta
+    BEGIN("first-on-thread", what == 0 ? "date" : what == 1 ? "default-date" : "cache-control", std::to_string(sec));
+    std::string text, err; long long back = -1;
+    std::thread th([&] { try {
+        if (what == 2) { Http::Header::CacheControl cc(Http::CacheDirective(Http::CacheDirective::MaxAge, std::chrono::seconds(sec % 2147483647LL))); std::ostringstream os; cc.write(os); text = os.str();
+            Http::Header::CacheControl c2; c2.parse(text); std::ostringstream o2; c2.write(o2); back = o2.str() == text ? (sec % 2147483647LL) : -2; }
+        else { Http::Header::Date d = what == 1 ? Http::Header::Date() : Http::Header::Date(Http::FullDate(std::chrono::system_clock::time_point(std::chrono::seconds(sec)))); std::ostringstream os; d.write(os); text = os.str();
+            Http::Header::Date d2; d2.parse(text); back = (long long)std::chrono::duration_cast<std::chrono::seconds>(d2.fullDate().date().time_since_epoch()).count(); }
+    } catch (const std::exception& e) { err = e.what(); } });
+    th.join();
+    long long want = what == 1 ? 0 : what == 2 ? (sec % 2147483647LL) : sec;
+    if (!err.empty()) viol(std::string("c16:rt:first-on-a-fresh-thread:") + (what == 2 ? "Cache-Control" : "Date") + ":throw", "the first header a thread writes ('" + text + "') does not read back: " + err);
+    else if (back != want) viol(std::string("c16:rt:first-on-a-fresh-thread:") + (what == 2 ? "Cache-Control" : "Date") + ":value", "the first header a thread writes ('" + text + "') reads back as another value");
+    g_distinct.add("fresh:" + std::to_string(what) + ":" + std::to_string(sec % 512));
+    count("first_value_on_a_fresh_thread");
+    end_case();
+}
 static void run_c16(long cases) {
     Rng& r = g_rng;
+    for (int k = 0; k < 40; k++) c16_first_on_a_fresh_thread(r);
     for (long i = 0; i < cases; i++) {
         if (r.chance(5, 6)) c16_typed(r); else c16_lookup(r);
     }
